@@ -188,7 +188,7 @@ func main() {
 	r := ev.Start("C10", "exploration")
 	budget := 55 * time.Second
 	if r.Thorough() {
-		budget = 8 * time.Minute
+		budget = 9 * time.Minute
 	}
 	if r.Budget > 0 {
 		budget = r.Budget
